@@ -33,7 +33,24 @@ def cyclic_models():
     yield "two-loops", build({"x": ("input", []), "y": ("input", []), "p": ("and", ["x", "q"]), "q": ("or", ["p", "r"]), "r": ("and", ["y", "s"]), "s": ("or", ["r", "p"]), "o": ("xor", ["q", "s"])}, outputs=["o", "q"])
     yield "loop-through-output-and-input-output", build({"i": ("input", []), "m": ("nand", ["i", "n"]), "n": ("nand", ["m", "i"]), "o": ("not", ["n"])}, outputs=["o", "i", "m"])
     yield "xor-loop-with-const", build({"a": ("input", []), "one": ("1", []), "u": ("and", ["a", "v", "one"]), "v": ("or", ["u", "w"]), "w": ("and", ["a", "u"])}, outputs=["v"])
+    yield "unobserved-input-and-dead-latch", build({"a": ("input", []), "d": ("input", []), "en": ("input", []), "p": ("nand", ["a", "q"]), "q": ("nand", ["p", "a"]), "o": ("buf", ["q"]),
+                                                    "m1": ("nor", ["d", "m2"]), "m2": ("nor", ["en", "m1"])}, outputs=["o"])
+    yield "nested-loops-sharing-a-node", ordered(["a", "g1", "g2", "g3", "g4"], {"a": "input", "g1": "and", "g2": "or", "g3": "buf", "g4": "xnor"},
+                                                 [("a", "g1"), ("g3", "g1"), ("g1", "g2"), ("g4", "g2"), ("g2", "g3"), ("g2", "g4"), ("a", "g4")], ["g3"])
+    yield "one-scc-overlapping-cycles", ordered(["n2", "n5", "n3", "n4", "n0", "n7", "n6", "n1"],
+                                                {"n2": "and", "n5": "input", "n3": "buf", "n4": "not", "n0": "buf", "n7": "or", "n6": "input", "n1": "nor"},
+                                                [("n2", "n4"), ("n3", "n2"), ("n3", "n1"), ("n4", "n7"), ("n4", "n1"), ("n0", "n7"), ("n0", "n2"), ("n7", "n3"), ("n7", "n1"), ("n6", "n7"), ("n1", "n0")], ["n1", "n4"])
     yield "acyclic-control", build({"a": ("input", []), "b": ("input", []), "g": ("nand", ["a", "b"]), "h": ("nor", ["g", "a"])}, outputs=["h"])
+
+
+def ordered(order, types, edges, outputs):
+    """Model circuit with a prescribed node / edge insertion order (the feedback-set heuristic depends on it)."""
+    c = RefCircuit(name="m")
+    for n in order:
+        c.graph.add_node(n, type=types[n], output=n in outputs)
+    for u, v in edges:
+        c.graph.add_edge(u, v)
+    return c
 
 
 def stable_states(c):
